@@ -88,8 +88,8 @@ func runProperty(cfg *PropConfig, tier string, seed int) *propResult {
 		if fc == nil {
 			fc = &FuncContract{Key: fs.Key, Opts: map[string]string{"modifies": "all"}, Loops: map[int]*LoopContract{}}
 		}
-		g := NewGen(E, fn, fs.Key, fc)
-		if err := g.Run(); err != nil {
+		g, err := GenerateStable(E, fn, fs.Key, fc)
+		if err != nil {
 			o := &Obl{Name: fs.Key + "#error:generation", Kind: "error", Func: fs.Key, Status: "failed", Raw: err.Error()}
 			all = append(all, o)
 			continue
